@@ -297,12 +297,27 @@ pub fn frame_images(ase: &AsepriteFile) -> V {
     V::L((0..ase.num_frames()).map(|f| V::Img(Img::from_rgba(&ase.frame(f).image(), true))).collect())
 }
 
+/// tile indices whose images are observed: all of them for ordinary tilesets, a
+/// sample for very large ones (tile_image is linear in the tileset size)
+pub fn tile_sample(count: u32) -> Vec<u32> {
+    if count <= 400 {
+        (0..count).collect()
+    } else {
+        let mut v: Vec<u32> = (0..8).collect();
+        v.extend([255, 256, 257, count / 2, 65_535, 65_536, 65_537].iter().filter(|i| **i < count));
+        v.extend(count - 8..count);
+        v.sort_unstable();
+        v.dedup();
+        v
+    }
+}
+
 pub fn tileset_images(ase: &AsepriteFile) -> V {
     let mut all: Vec<(u32, V)> = ase
         .tilesets()
         .iter()
         .map(|t| {
-            let tiles: Vec<V> = (0..t.tile_count()).map(|i| V::Img(Img::from_rgba(&t.tile_image(i), false))).collect();
+            let tiles: Vec<V> = tile_sample(t.tile_count()).into_iter().map(|i| V::Img(Img::from_rgba(&t.tile_image(i), false))).collect();
             (t.id(), m(vec![("id", n(t.id())), ("image", V::Img(Img::from_rgba(&t.image(), false))), ("tiles", V::L(tiles))]))
         })
         .collect();
